@@ -70,17 +70,71 @@ Proof.
   destruct (pat_eqb q p) eqn:Eq; [|reflexivity]. apply pat_eqb_eq in Eq. subst q. exact Ea.
 Qed.
 
-Lemma assoc_fold : forall evs r p,
-  assoc (fold_left (step false) evs r) p = fold_left (spec_step p) evs (assoc r p).
+Definition wf_sett (s : sett) : Prop := in_mem s = true -> wint s = 0%Z /\ maxfs s = 0%Z.
+
+Lemma mk_sett_wf : forall m i w f, wf_sett (mk_sett m i w f).
+Proof. intros [|] i w f; unfold wf_sett, mk_sett; simpl; intro H; [auto | discriminate]. Qed.
+
+Definition wf_reg (r : registry) : Prop := forall e, In e r -> wf_sett (snd e).
+
+Lemma load_save_entry : forall e, wf_sett (snd e) -> load_entry (save_entry e) = e.
 Proof.
-  induction evs as [|e t IH]; intros r p; simpl; [reflexivity|].
-  rewrite IH. f_equal. destruct e as [q s|q]; simpl.
-  - apply assoc_register.
-  - apply assoc_remove.
+  intros [p [m i w f]] H. unfold load_entry, save_entry, wf_sett in *. simpl in *.
+  destruct m; [destruct (H eq_refl) as [-> ->]|]; reflexivity.
 Qed.
 
-Lemma assoc_run : forall evs p, assoc (run false evs) p = last_reg evs p.
-Proof. intros. unfold run, last_reg. rewrite assoc_fold. reflexivity. Qed.
+Lemma load_save : forall r, wf_reg r -> load (save r) = r.
+Proof.
+  induction r as [|e t IH]; intro H; [reflexivity|]. unfold load, save in *. simpl.
+  rewrite load_save_entry by (apply H; simpl; auto). f_equal. apply IH.
+  intros e' He'. apply H. simpl. auto.
+Qed.
+
+Lemma wf_remove : forall r p, wf_reg r -> wf_reg (remove_key p r).
+Proof. intros r p H e He. apply filter_In in He as [He _]. apply H, He. Qed.
+
+Lemma step_restart : forall q r, wf_reg r -> step q r Restart = r.
+Proof. intros q r H. simpl. apply load_save, H. Qed.
+
+Lemma wf_step : forall q r e,
+  wf_reg r -> (forall p s, e = Reg p s -> wf_sett s) -> wf_reg (step q r e).
+Proof.
+  intros q r [p s|p|] H Hs; [|simpl; apply wf_remove, H|rewrite step_restart; assumption].
+  simpl.
+  assert (Hset : wf_reg (set_key r p s)).
+  { intros e [<-|He]; [simpl; eapply Hs; reflexivity | eapply wf_remove; eauto]. }
+  unfold register. destruct (assoc r p); [|exact Hset].
+  match goal with |- context [if ?c then r else _] => destruct c end; [exact H | exact Hset].
+Qed.
+
+Definition wf_events (evs : list event) : Prop := forall p s, In (Reg p s) evs -> wf_sett s.
+
+Lemma wf_fold : forall q evs r, wf_reg r -> wf_events evs -> wf_reg (fold_left (step q) evs r).
+Proof.
+  induction evs as [|e t IH]; intros r H He; simpl; [exact H|].
+  apply IH.
+  - apply wf_step; [exact H|]. intros p s ->. apply (He p s). simpl. auto.
+  - intros p s Hin. apply (He p s). simpl. auto.
+Qed.
+
+Lemma assoc_fold : forall evs r p,
+  wf_reg r -> wf_events evs ->
+  assoc (fold_left (step false) evs r) p = fold_left (spec_step p) evs (assoc r p).
+Proof.
+  induction evs as [|e t IH]; intros r p Hr He; simpl; [reflexivity|].
+  assert (Ht : wf_events t) by (intros q s Hin; apply (He q s); simpl; auto).
+  assert (Hr' : wf_reg (step false r e)).
+  { apply wf_step; [exact Hr|]. intros q s ->. apply (He q s). simpl. auto. }
+  rewrite IH by assumption. f_equal. destruct e as [q s|q|].
+  - apply assoc_register.
+  - apply assoc_remove.
+  - rewrite step_restart by exact Hr. reflexivity.
+Qed.
+
+Lemma assoc_run : forall evs p, wf_events evs -> assoc (run false evs) p = last_reg evs p.
+Proof.
+  intros evs p H. unfold run, last_reg. rewrite assoc_fold; [reflexivity | intros e [] | exact H].
+Qed.
 
 (* ---- the keys of the registry stay distinct (it is a map) ------------------------------- *)
 
@@ -109,7 +163,9 @@ Qed.
 
 Lemma nodup_step : forall q r e, NoDup (keys r) -> NoDup (keys (step q r e)).
 Proof.
-  intros q r [p s|p] H; simpl; [|apply nodup_remove; exact H].
+  intros q r [p s|p|] H; simpl; [|apply nodup_remove; exact H|].
+  2:{ unfold keys, load, save. rewrite !map_map. simpl.
+      replace (map (fun x => fst x) r) with (keys r) by reflexivity. exact H. }
   unfold register. destruct (assoc r p); [|apply nodup_set; exact H].
   match goal with |- context [if ?c then r else _] => destruct c end; [exact H | apply nodup_set; exact H].
 Qed.
@@ -260,97 +316,92 @@ Lemma pick_ext : forall f g n, (forall p, f p = g p) -> pick f n = pick g n.
 Proof. intros f g n H. unfold pick, at_level. rewrite !H. reflexivity. Qed.
 
 Theorem lookup_is_spec : forall evs order n,
+  wf_events evs ->
   Permutation (run false evs) order ->
   lookup_best order n = spec_lookup evs n.
 Proof.
-  intros evs order n Hp.
+  intros evs order n Hwf Hp.
   assert (Hnd : NoDup (keys order)).
   { eapply Permutation_NoDup; [apply Permutation_map, Hp | apply nodup_run]. }
   rewrite lookup_best_is_pick by exact Hnd. unfold spec_lookup. apply pick_ext.
-  intro p. rewrite <- assoc_run. symmetry. apply assoc_perm; [apply nodup_run | exact Hp].
+  intro p. rewrite <- assoc_run by exact Hwf. symmetry. apply assoc_perm; [apply nodup_run | exact Hp].
 Qed.
 
 Corollary lookup_order_independent : forall evs evs' order order' n,
+  wf_events evs -> wf_events evs' ->
   (forall p, last_reg evs p = last_reg evs' p) ->
   Permutation (run false evs) order -> Permutation (run false evs') order' ->
   lookup_best order n = lookup_best order' n.
 Proof.
-  intros evs evs' order order' n H Hp Hp'.
-  rewrite (lookup_is_spec evs order n Hp), (lookup_is_spec evs' order' n Hp').
+  intros evs evs' order order' n Hwf Hwf' H Hp Hp'.
+  rewrite (lookup_is_spec evs order n Hwf Hp), (lookup_is_spec evs' order' n Hwf' Hp').
   unfold spec_lookup. apply pick_ext, H.
 Qed.
 
 (* the specification itself is the most specific registered match: soundness of [pick] *)
 Theorem spec_lookup_most_specific : forall evs n,
+  wf_events evs ->
   (exists p s, last_reg evs p = Some s /\ matches n p = true /\ spec_lookup evs n = s /\
                forall q s', last_reg evs q = Some s' -> matches n q = true -> rank q <= rank p)
   \/ ((forall q, matches n q = true -> last_reg evs q = None) /\ spec_lookup evs n = default_sett).
 Proof.
-  intros evs n. unfold spec_lookup.
-  rewrite <- (pick_ext (assoc (run false evs)) (last_reg evs) n (assoc_run evs)).
+  intros evs n Hwf. unfold spec_lookup.
+  rewrite <- (pick_ext (assoc (run false evs)) (last_reg evs) n (fun p => assoc_run evs p Hwf)).
   rewrite <- lookup_best_is_pick by apply nodup_run.
   unfold lookup_best. pose proof (best_inv_all n (run false evs)) as Hinv.
   destruct (fold_left (best_step n) (run false evs) None) as [[p s]|]; simpl in Hinv.
   - left. destruct Hinv as [Hin [Hm Hmax]]. exists p, s. simpl in *.
-    split; [rewrite <- assoc_run; apply in_assoc; [apply nodup_run | exact Hin]|].
+    split; [rewrite <- assoc_run by exact Hwf; apply in_assoc; [apply nodup_run | exact Hin]|].
     split; [exact Hm|]. split; [reflexivity|].
-    intros q s' Hq Hmq. rewrite <- assoc_run in Hq. apply assoc_in in Hq.
+    intros q s' Hq Hmq. rewrite <- assoc_run in Hq by exact Hwf. apply assoc_in in Hq.
     exact (Hmax _ Hq Hmq).
   - right. split; [|reflexivity]. intros q Hmq.
     destruct (last_reg evs q) as [s'|] eqn:E; [|reflexivity].
-    rewrite <- assoc_run in E. apply assoc_in in E. pose proof (Hinv _ E) as X. simpl in X. congruence.
+    rewrite <- assoc_run in E by exact Hwf. apply assoc_in in E. pose proof (Hinv _ E) as X. simpl in X. congruence.
 Qed.
 
 (* ---- save + reload ---------------------------------------------------------------------- *)
-
-Definition wf_sett (s : sett) : Prop := in_mem s = true -> wint s = 0%Z /\ maxfs s = 0%Z.
-
-Lemma mk_sett_wf : forall m i w f, wf_sett (mk_sett m i w f).
-Proof. intros [|] i w f; unfold wf_sett, mk_sett; simpl; intro H; [auto | discriminate]. Qed.
-
-Definition wf_reg (r : registry) : Prop := forall e, In e r -> wf_sett (snd e).
-
-Lemma load_save_entry : forall e, wf_sett (snd e) -> load_entry (save_entry e) = e.
-Proof.
-  intros [p [m i w f]] H. unfold load_entry, save_entry, wf_sett in *. simpl in *.
-  destruct m; [destruct (H eq_refl) as [-> ->]|]; reflexivity.
-Qed.
-
-Lemma load_save : forall r, wf_reg r -> load (save r) = r.
-Proof.
-  induction r as [|e t IH]; intro H; [reflexivity|]. unfold load, save in *. simpl.
-  rewrite load_save_entry by (apply H; simpl; auto). f_equal. apply IH.
-  intros e' He'. apply H. simpl. auto.
-Qed.
-
-Lemma wf_remove : forall r p, wf_reg r -> wf_reg (remove_key p r).
-Proof. intros r p H e He. apply filter_In in He as [He _]. apply H, He. Qed.
-
-Lemma wf_step : forall q r e,
-  wf_reg r -> (forall p s, e = Reg p s -> wf_sett s) -> wf_reg (step q r e).
-Proof.
-  intros q r [p s|p] H Hs; simpl; [|apply wf_remove, H].
-  assert (Hset : wf_reg (set_key r p s)).
-  { intros e [<-|He]; [simpl; eapply Hs; reflexivity | eapply wf_remove; eauto]. }
-  unfold register. destruct (assoc r p); [|exact Hset].
-  match goal with |- context [if ?c then r else _] => destruct c end; [exact H | exact Hset].
-Qed.
-
-Definition wf_events (evs : list event) : Prop := forall p s, In (Reg p s) evs -> wf_sett s.
-
-Lemma wf_fold : forall q evs r, wf_reg r -> wf_events evs -> wf_reg (fold_left (step q) evs r).
-Proof.
-  induction evs as [|e t IH]; intros r H He; simpl; [exact H|].
-  apply IH.
-  - apply wf_step; [exact H|]. intros p s ->. apply (He p s). simpl. auto.
-  - intros p s Hin. apply (He p s). simpl. auto.
-Qed.
 
 Theorem restart_stable : forall evs n,
   wf_events evs ->
   lookup_best (load (save (run false evs))) n = lookup_best (run false evs) n.
 Proof.
   intros evs n H. rewrite load_save; [reflexivity|]. apply wf_fold; [intros e []|exact H].
+Qed.
+
+(* a restart anywhere in the history changes nothing: the registrations in force, hence every
+   later lookup, are those of the history without the restarts *)
+Definition is_restart (e : event) : bool := match e with Restart => true | _ => false end.
+
+Lemma last_reg_ignores_restarts : forall evs p,
+  last_reg (filter (fun e => negb (is_restart e)) evs) p = last_reg evs p.
+Proof.
+  intros evs p. unfold last_reg. generalize (@None sett).
+  induction evs as [|e t IH]; intro st; simpl; [reflexivity|].
+  destruct e; simpl; apply IH.
+Qed.
+
+Lemma wf_events_filter : forall f evs, wf_events evs -> wf_events (filter f evs).
+Proof. intros f evs H p s Hin. apply filter_In in Hin as [Hin _]. exact (H p s Hin). Qed.
+
+Theorem restarts_invisible : forall evs order order' n,
+  wf_events evs ->
+  Permutation (run false evs) order ->
+  Permutation (run false (filter (fun e => negb (is_restart e)) evs)) order' ->
+  lookup_best order n = lookup_best order' n.
+Proof.
+  intros evs order order' n Hwf Hp Hp'.
+  apply (lookup_order_independent evs (filter (fun e => negb (is_restart e)) evs)); try assumption.
+  - apply wf_events_filter, Hwf.
+  - intro p. symmetry. apply last_reg_ignores_restarts.
+Qed.
+
+(* a deregistered pattern stops applying at once: right after Dereg p, no lookup is answered
+   from p's registration unless another registered pattern carries it *)
+Theorem deregistered_pattern_not_in_force : forall evs p,
+  last_reg (evs ++ [Dereg p]) p = None.
+Proof.
+  intros evs p. unfold last_reg. rewrite fold_left_app. simpl. rewrite pat_eqb_refl. reflexivity.
 Qed.
 
 (* ---- the pinned commit ------------------------------------------------------------------- *)
